@@ -108,6 +108,35 @@ pub fn pool_for_result(script: &Script, offset: usize, rounds: u32, want: u64, b
     }
 }
 
+/// Pool content p0 such that the collection starting at `offset` returns `p0 ^ relation`
+/// (relation = 0: a fixed point of the collection map).
+pub fn pool_for_relation(script: &Script, offset: usize, rounds: u32, relation: u64, budget: usize) -> Option<u64> {
+    use crate::gf2::{Bits, Matrix};
+    let run = |p0: u64| -> Option<u64> {
+        let mut m = Model::new(script.clone());
+        m.reads = offset;
+        m.rounds = rounds;
+        m.pool = p0;
+        m.collect(budget)
+    };
+    let c = run(0)?;
+    // result = A p0 ^ c  and  result = p0 ^ relation   =>   (A ^ I) p0 = c ^ relation
+    let mut cols = Vec::with_capacity(64);
+    for i in 0..64 {
+        let mut b = Bits::ZERO;
+        b.0[0] = run(1u64 << i)? ^ c ^ (1u64 << i);
+        cols.push(b);
+    }
+    let mut t = Bits::ZERO;
+    t.0[0] = c ^ relation;
+    let p0 = Matrix { n: 64, cols }.solve(&t)?.0[0];
+    if run(p0)? == p0 ^ relation {
+        Some(p0)
+    } else {
+        None
+    }
+}
+
 impl Model {
     pub fn new(script: Script) -> Model {
         Model { script, reads: 0, pool: 0, rounds: 64, half: false, stuck_seen: 0, measurements: 0 }
